@@ -204,8 +204,16 @@ func chanName(t string) string {
 // varName renders v in fn with parameters spelled by their source names, so that
 // "$0.wg" in a method and "^pool.wg" in its closure coincide as "pool.wg".
 func varName(ff *FuncFacts, v ssa.Value) string {
-	t := chanName(ff.Term(v))
-	for i, prm := range ff.Fn.Params {
+	t := ff.Term(v)
+	// captured variables: name them as the enclosing function does ("^$^0.wg" -> "$0.wg" of the parent)
+	fnForParams := ff.Fn
+	for strings.HasPrefix(t, "^") && fnForParams.Parent() != nil {
+		t = strings.TrimPrefix(t, "^")
+		t = strings.ReplaceAll(t, "$^", "$")
+		fnForParams = fnForParams.Parent()
+	}
+	t = chanName(t)
+	for i, prm := range fnForParams.Params {
 		pre := "$" + fmtInt(i)
 		if t == pre {
 			return prm.Name()
@@ -511,10 +519,15 @@ func (p *Program) sendCapacity(fn *ssa.Function) []pairResult {
 				continue
 			}
 			name := ""
+			var chAlloc *ssa.Alloc
 			for _, rf := range *mk.Referrers() {
 				if st, ok := rf.(*ssa.Store); ok {
 					if al, ok := st.Addr.(*ssa.Alloc); ok {
 						name = allocName(al)
+						if al.Comment != "" {
+							name = al.Comment // source name, for the message only
+						}
+						chAlloc = al
 					}
 				}
 			}
@@ -528,7 +541,7 @@ func (p *Program) sendCapacity(fn *ssa.Function) []pairResult {
 				for _, ab := range a.Blocks {
 					for _, ai := range ab.Instrs {
 						s, ok := ai.(*ssa.Send)
-						if !ok || chanName(af.Term(s.Chan)) != name {
+						if !ok || resolveAlloc(s.Chan) != chAlloc {
 							continue
 						}
 						senders++
@@ -664,4 +677,44 @@ func (p *Program) lockBalance(fn *ssa.Function) (int, []lockLeak) {
 		}
 	}
 	return n, leaks
+}
+
+// resolveAlloc: the local variable cell a value is loaded from, looking through closure captures
+// (a free variable is resolved to the variable the enclosing function bound to it).
+func resolveAlloc(v ssa.Value) *ssa.Alloc {
+	for d := 0; d < 8; d++ {
+		switch x := v.(type) {
+		case *ssa.UnOp:
+			v = x.X
+		case *ssa.Alloc:
+			return x
+		case *ssa.FreeVar:
+			fn := x.Parent()
+			par := fn.Parent()
+			if par == nil {
+				return nil
+			}
+			idx := -1
+			for i, f := range fn.FreeVars {
+				if f == x {
+					idx = i
+				}
+			}
+			var next ssa.Value
+			for _, b := range par.Blocks {
+				for _, in := range b.Instrs {
+					if m, ok := in.(*ssa.MakeClosure); ok && m.Fn == fn && idx >= 0 && idx < len(m.Bindings) {
+						next = m.Bindings[idx]
+					}
+				}
+			}
+			if next == nil {
+				return nil
+			}
+			v = next
+		default:
+			return nil
+		}
+	}
+	return nil
 }
